@@ -3,9 +3,11 @@
 //! Resolves file paths to actual content through the CASC lookup chain.
 
 use crate::{Result, StorageError};
-use cascette_crypto::Jenkins96;
 use cascette_crypto::{ContentKey, EncodingKey};
-use cascette_formats::{encoding::EncodingFile, root::RootFile};
+use cascette_formats::{
+    encoding::EncodingFile,
+    root::{RootFile, calculate_name_hash},
+};
 use dashmap::DashMap;
 use parking_lot::RwLock;
 use std::sync::Arc;
@@ -109,15 +111,16 @@ impl ContentResolver {
         }
 
         let content_key = self.root_file.read().as_ref().and_then(|root_file| {
-            // Calculate name hash for path-based lookup
-            let name_hash = Jenkins96::hash(path.as_bytes());
+            // Name hashes in the root file are computed over the normalized path
+            // (uppercase, backslashes) - use the same function as the root format
+            let name_hash = calculate_name_hash(path);
 
             // Search through all blocks for matching entry
             root_file
                 .blocks
                 .iter()
                 .flat_map(|block| &block.records)
-                .find(|entry| entry.name_hash == Some(name_hash.hash64))
+                .find(|entry| entry.name_hash == Some(name_hash))
                 .map(|entry| entry.content_key)
         });
 
